@@ -108,3 +108,86 @@ func HarnessMaxSize() {
 	zz.Assert(db.Close() == nil, "max/close2")
 	zz.Reach("done")
 }
+
+
+// HarnessMaxSizeSweep: page-granular growth (AllocSize 0) with the limit swept one page at a time, so
+// that every allocation of a commit – including the last one, for the freelist page – is the one that
+// hits the limit for some value. Every write either succeeds or fails with the size-limit error,
+// changes nothing, leaves the accounting exact and all locks free.
+func HarnessMaxSizeSweep() {
+	c := zzConfig()
+	path := zz.TempPath("sweep.db")
+	k := zz.Choose(zz.Param("steps", 36))
+	c.maxSize = (6 + k) * c.pageSize
+	db := zzMustOpen(path, c, "sweep")
+	db.AllocSize = 0
+	atOpen := zz.FileSize(path)
+	bound := int64(c.maxSize)
+	if atOpen > bound {
+		bound = atOpen
+	}
+	refused := 0
+	step := func(id string, manual bool, fn func(tx *Tx) error) {
+		before := zzViewDump(db, id+"/before")
+		var err error
+		if manual {
+			// manually managed transaction: Commit itself must release everything on failure
+			var tx *Tx
+			tx, err = db.Begin(true)
+			zz.Assert(err == nil, id+"/begin")
+			if err = fn(tx); err == nil {
+				err = tx.Commit()
+			} else {
+				_ = tx.Rollback()
+			}
+		} else {
+			err = db.Update(fn)
+		}
+		zz.Assert(zz.FileSize(path) <= bound, id+"/file-within-limit")
+		if err != nil {
+			refused++
+			zz.Reach("refused")
+			zz.Assert(err == berrors.ErrMaxSizeReached, id+"/the-size-limit-error")
+			zz.Assert(zzSameKVs(zzViewDump(db, id+"/after-error"), before), id+"/error-leaves-state-untouched")
+		} else {
+			zz.Reach("accepted")
+		}
+		zzLocksFree(db, id+"/locks", 0)
+		zzCheckAll(db, path, c, id+"/accounting")
+	}
+	manual := zz.Choose(2) == 1
+	step("sweep/create", manual, func(tx *Tx) error {
+		b, err := tx.CreateBucketIfNotExists([]byte("b"))
+		if err != nil {
+			return err
+		}
+		for i := 0; i < 6; i++ {
+			if err := b.Put([]byte{'k', byte('0' + i)}, zzVal(c.pageSize*3/10, byte('a'+i))); err != nil {
+				return err
+			}
+		}
+		return nil
+	})
+	step("sweep/second", manual, func(tx *Tx) error {
+		b, err := tx.CreateBucketIfNotExists([]byte("b"))
+		if err != nil {
+			return err
+		}
+		if err := b.Put([]byte("k0"), zzVal(c.pageSize*3/10, 'Z')); err != nil {
+			return err
+		}
+		return b.Put([]byte("m"), zzVal(c.pageSize*(1+zz.Choose(3)), 'M'))
+	})
+	step("sweep/third", manual, func(tx *Tx) error {
+		b, err := tx.CreateBucketIfNotExists([]byte("b"))
+		if err != nil {
+			return err
+		}
+		return b.Put([]byte("z"), zzVal(c.pageSize*3/10, 'z'))
+	})
+	zz.Assert(db.Close() == nil, "sweep/close")
+	db = zzMustOpen(path, c, "sweep/reopen")
+	zzCheckAll(db, path, c, "sweep/reopened")
+	zz.Assert(db.Close() == nil, "sweep/close2")
+	zz.Reach("done")
+}
